@@ -18,11 +18,11 @@ import (
 func VerifUploadIDConfined() { verifUploadFlow(false) }
 
 // VerifFindingUploadIDDotDot: the same flow restricted to the uid whose
-// decoded form is ".." (FINDINGS.md).
+// decoded form is ".." (FINDINGS.md F2, fixed in /repo by d7bcd7f: regression
+// check).
 func VerifFindingUploadIDDotDot() { verifUploadFlow(true) }
 
 func verifUploadFlow(finding bool) {
-	verif.Option("panic_is_violation", 1)
 	t := httputil.KseLayout()
 	cas, err := store.NewCAStore(store.CAStoreConfig{
 		UploadDir:     t.Roots[0],
@@ -44,8 +44,10 @@ func verifUploadFlow(finding bool) {
 		verif.Reach("rejected-by-parse")
 		return
 	}
-	// The decoded uid ".." is a recorded finding with its own harness.
-	verif.Assume((uid == "..") == finding)
+	if finding {
+		// regression check of the fixed finding F2: only the decoded uid ".."
+		verif.Assume(uid == "..")
+	}
 
 	perr := u.patch(d, uid, bytes.NewReader(chunk), 0, int64(len(chunk)))
 	verif.Cover("patch-rejected", perr != nil)
